@@ -79,6 +79,7 @@ RULES = {
     'R-STALESNAP': generic_rules.r_stalesnap,
     'R-INDEXBYVALUE': generic_rules.r_indexbyvalue,
     'R-COUNTERSTR': generic_rules.r_counterstr,
+    'R-MAXSTEP': generic_rules.r_maxstep,
 }
 
 
@@ -148,14 +149,15 @@ PROPS = {
                        'independent decoder recovers the tree, tab-stop widths, terminals output text.',
     },
     'C03': {
-        'rules': ['R-FRAMEFILE', 'R-DISPATCH', 'R-ENC', 'R-NONE', 'R-VOCAB', 'R-AUTOMATON', 'R-OPTKEY', 'R-READER-STATE', 'R-DIRMODE', 'R-OPENMODE', 'R-SIBLING', 'R-OPTSIDE', 'R-PERTREE', 'R-NODELINE', 'DECOR', 'R-TABS', 'R-LINK', 'R-ESC', 'R-ROOTSCAN'],
+        'rules': ['R-FRAMEFILE', 'R-DISPATCH', 'R-ENC', 'R-NONE', 'R-VOCAB', 'R-AUTOMATON', 'R-OPTKEY', 'R-READER-STATE', 'R-DIRMODE', 'R-OPENMODE', 'R-SIBLING', 'R-OPTSIDE', 'R-PERTREE', 'R-NODELINE', 'DECOR', 'R-TABS', 'R-LINK', 'R-ESC', 'R-ROOTSCAN', 'R-ORDERED', 'R-EXPNUM'],
         'filter': {'R-LINK': site('treeinput.'),
+                   'R-ORDERED': both(rule('R-ORDERED/RAW'), site('treeoutput.')),
                    'R-PERTREE': site('transform.run'),
                    'R-OPTSIDE': site('transform.run'),
                    'R-OPENMODE': site('transform.'),
                    'R-SIBLING': rule('R-SIBLING/GFSPLIT', 'R-SIBLING/PARENS', 'R-SIBLING/SID'),
                    'R-AUTOMATON': rule('R-AUTOMATON/A4', 'R-AUTOMATON/A3', 'R-AUTOMATON/FIELDS', 'R-AUTOMATON/LEXER'),
-                   'R-OPTKEY': rule('R-OPTKEY/K3')},
+                   'R-OPTKEY': rule('R-OPTKEY/K3', 'R-OPTKEY/K4')},
         'explanation': 'Decides, for `treetools transform`: every registry member exists with the arity its dispatch '
                        'site uses (4 readers x 5 writers total), both output branches frame every file with '
                        '<fmt>_begin/_end on every path, encodings reach every open and gzip is undone byte-exactly, '
@@ -221,8 +223,9 @@ PROPS = {
                        'linsub algebra, chain composition, fan-out agreement.',
     },
     'C08': {
-        'rules': ['R-ACCUM', 'R-IDCOUNTER', 'R-STATE', 'R-ARITY'],
-        'filter': {'R-ARITY': rule('R-ARITY/CHAIN'),
+        'rules': ['R-ACCUM', 'R-IDCOUNTER', 'R-STATE', 'R-ARITY', 'R-OPTKEY'],
+        'filter': {'R-OPTKEY': both(rule('R-OPTKEY/K4', 'R-OPTKEY/K1'), site('grammaroutput.')),
+                   'R-ARITY': rule('R-ARITY/CHAIN'),
                    'R-STATE': either(both(rule('R-STATE/G6', 'R-STATE/G5'), site('grammaroutput.')),
                                      both(rule('R-STATE/G1'), site('grammar')))},
         'explanation': 'Decides the clause "never only the last one seen": every store into a count slot accumulates '
@@ -254,7 +257,7 @@ PROPS = {
                    'R-LEAFGUARD': site('transitions.'),
                    'R-OPENMODE': site('transitions.', 'transitionoutput.'),
                    'R-ENC': site('transitions.', 'transitionoutput.'),
-                   'R-GUARD': rule('R-GUARD/GAP', 'R-GUARD/TOPDOWN', 'R-GUARD/PLAIN'),
+                   'R-GUARD': rule('R-GUARD/GAP', 'R-GUARD/TOPDOWN', 'R-GUARD/PLAIN', 'R-GUARD/SENTENCE'),
                    'R-ORDERED': either(rule('R-ORDERED/DEF'), site('transitions.')),
                    'R-STATE': both(rule('R-STATE/G1'), site('transitions', 'transitionoutput', 'trees')),
                    'R-FRAME': both(rule('R-FRAME/PURE'), site('transitions.'))},
@@ -365,7 +368,7 @@ PROPS = {
                        'Also: option sides; sign check inside the part loop; index-or-None tests. Does NOT decide: the sum arithmetic itself.',
     },
     'C18': {
-        'rules': ['R-STATE', 'R-READER-STATE', 'R-ARITY', 'R-FRAME', 'R-ACCUM', 'R-MEMO', 'R-FRAMEFILE', 'R-PERTREE', 'R-SORTEDPOS'],
+        'rules': ['R-STATE', 'R-READER-STATE', 'R-ARITY', 'R-FRAME', 'R-ACCUM', 'R-MEMO', 'R-FRAMEFILE', 'R-PERTREE', 'R-SORTEDPOS', 'R-OPENMODE'],
         'filter': {'R-SORTEDPOS': (lambda o: str(getattr(o, 'construct', '') or '').startswith('clausectr')),
                    'R-PERTREE': site('transform.run', 'grammar.run', 'transitions.run', 'treeanalysis.run'),
                    'R-ACCUM': either(rule('R-ACCUM/TASK', 'R-ACCUM/EXTRACT'), site('grammar.extract', 'grammar.binarize')),
@@ -408,7 +411,7 @@ PROPS = {
 }
 
 # generic misuse patterns (ttsa/rules/generic_rules.py) are looked for in the functions each property is anchored in
-GENERIC = ['R-SUBSTR', 'R-DEADCHECK', 'R-FALSYZERO', 'R-DICTCOMP', 'R-STALEACC', 'R-ZEROTABLE', 'R-LEAKVAR', 'R-STRSORT', 'R-FMTDATA', 'R-COUNTERUNION', 'R-INSTR', 'R-ORDEFAULT', 'R-KEYCOPY', 'R-SHAREDMUT', 'R-SHAREDTABLE', 'R-ONESHOT', 'R-LOOPRESET', 'R-WRONGCHECK', 'R-STALESNAP', 'R-INDEXBYVALUE', 'R-COUNTERSTR']
+GENERIC = ['R-SUBSTR', 'R-DEADCHECK', 'R-FALSYZERO', 'R-DICTCOMP', 'R-STALEACC', 'R-ZEROTABLE', 'R-LEAKVAR', 'R-STRSORT', 'R-FMTDATA', 'R-COUNTERUNION', 'R-INSTR', 'R-ORDEFAULT', 'R-KEYCOPY', 'R-SHAREDMUT', 'R-SHAREDTABLE', 'R-ONESHOT', 'R-LOOPRESET', 'R-WRONGCHECK', 'R-STALESNAP', 'R-INDEXBYVALUE', 'R-COUNTERSTR', 'R-MAXSTEP']
 PROP_SITES = {
     'C01': ('treeinput.', 'trees.parse_label', 'misc.'),
     'C02': ('treeoutput.', 'trees.get_label', 'treeanalysis.gap'),
